@@ -47,7 +47,7 @@ ASSUMPTIONS = ["files have one consistent newline convention and at least one li
                "itself honours)",
                "edits never touch the first two lines (the declared encoding is not part of the edit)",
                "identifiers use NFKC-stable characters only"]
-BUDGET = {"quick": (20000, 60), "thorough": (400000, 480)}
+BUDGET = {"quick": (20000, 240), "thorough": (400000, 900)}
 EXHAUSTIVE = {}
 REQUIRE = {"bytes_compared": 5000, "create_checked": 300, "anchor:unicode_to_file_data": 1000,
            "anchor:file_data_to_unicode": 1000, "anchor:read_str_coding": 1000, "edit_effective": 500, "undo_exact_checked": 500, "redo_exact_checked": 500,
